@@ -57,6 +57,9 @@ thread_local! {
     static HOSTLOG: RefCell<Vec<(&'static str, u64)>> = const { RefCell::new(Vec::new()) };
 }
 static MK_CALLS: Mutex<BTreeMap<u64, u64>> = Mutex::new(BTreeMap::new());
+/// values returned by calls, kept until after every module is gone: (value, expected text)
+static KEPT_STR: Mutex<Vec<(Sendable<RotoString>, String)>> = Mutex::new(Vec::new());
+static KEPT_OBJ: Mutex<Vec<(Sendable<Val<T24>>, u64)>> = Mutex::new(Vec::new());
 static IN_CALL: AtomicI64 = AtomicI64::new(0);
 static IN_COMPILE: AtomicI64 = AtomicI64::new(0);
 static P_COMPILE_OVERLAP: AtomicU64 = AtomicU64::new(0);
@@ -612,11 +615,20 @@ fn exec_inner(op: &LifeOp) -> bool {
                     }
                 }
                 Hf::S(f) => {
-                    let got = f.call(RotoString::from("ab"));
+                    // alternate between `call` and `call_tuple`
+                    let got = if x % 2 == 0 { f.call(RotoString::from("ab")) } else { f.call_tuple(&mut NoCtx, (RotoString::from("ab"),)) };
                     let log = take_hostlog();
-                    let s: &str = got.as_ref();
-                    if s != format!("abv{k}r{k}ks{rid}") || !log.is_empty() {
-                        viol::record("wrong-result", format!("s(\"ab\") of module m{} (version {k}) returned {s:?} with host calls {log:?}", e.m));
+                    let want = format!("abv{k}r{k}ks{rid}");
+                    {
+                        let s: &str = got.as_ref();
+                        if s != want || !log.is_empty() {
+                            viol::record("wrong-result", format!("s(\"ab\") of module m{} (version {k}) returned {s:?} with host calls {log:?}", e.m));
+                        }
+                    }
+                    let _mg = alloc::ModeGuard::new(alloc::MODE_PLAIN);
+                    let mut g = KEPT_STR.lock().unwrap();
+                    if g.len() < 16 {
+                        g.push((Sendable(got), want));
                     }
                 }
                 Hf::Test(t) => {
@@ -633,7 +645,13 @@ fn exec_inner(op: &LifeOp) -> bool {
                     let log = take_hostlog();
                     let want = if arg > 5 { c } else { arg };
                     match got.0.checked_payload() {
-                        Ok(p) if p == want && log == vec![("val", arg)] => {}
+                        Ok(p) if p == want && log == vec![("val", arg)] => {
+                            let _mg = alloc::ModeGuard::new(alloc::MODE_PLAIN);
+                            let mut g = KEPT_OBJ.lock().unwrap();
+                            if g.len() < 16 {
+                                g.push((Sendable(got), want));
+                            }
+                        }
                         other => viol::record("wrong-result", format!("t({arg}) of module m{} returned {other:?} with host calls {log:?}; expected payload {want}", e.m)),
                     }
                 }
@@ -843,6 +861,8 @@ pub fn execute(d: &LifeDesc, keep_trace: bool) -> RunResult {
     });
     *MODEL.lock().unwrap() = Some(Model::default());
     MK_CALLS.lock().unwrap().clear();
+    KEPT_STR.lock().unwrap().clear();
+    KEPT_OBJ.lock().unwrap().clear();
     for a in [&P_COMPILE_OVERLAP, &P_DROP_DURING_CALL, &P_LAST_HOLDER_FOREIGN, &P_CALL_AFTER_PKG_AND_RT_GONE, &P_CALL_AFTER_FAILED_RELOAD, &P_SKIPPED, &P_EXECUTED, &P_CHECKS, &FAILED_RELOADS] {
         a.store(0, SeqCst);
     }
@@ -939,6 +959,27 @@ pub fn execute(d: &LifeDesc, keep_trace: bool) -> RunResult {
                 exec(op);
             }
         }
+    }
+    // values returned by calls outlive every module: they must still be intact now
+    if !viol::any() {
+        let kept_s = std::mem::take(&mut *KEPT_STR.lock().unwrap());
+        for (v, want) in &kept_s {
+            let s: &str = v.0.as_ref();
+            if s != want {
+                viol::record("returned-value-corrupted", format!("a string returned by a call reads {:?} after its module was released, expected {want:?}", s.chars().take(40).collect::<String>()));
+                break;
+            }
+        }
+        let kept_o = std::mem::take(&mut *KEPT_OBJ.lock().unwrap());
+        for (v, want) in &kept_o {
+            if v.0.0.checked_payload() != Ok(*want) {
+                viol::record("returned-value-corrupted", format!("a tracked value returned by a call is {:?} after its module was released, expected payload {want}", v.0.0.checked_payload()));
+                break;
+            }
+        }
+        let _rg = alloc::ModeGuard::new(alloc::MODE_RUN);
+        drop(kept_s);
+        drop(kept_o);
     }
     // oracle 3: exactly once, after
     if !viol::any() {
